@@ -19,7 +19,7 @@ from common import Model, hx, exc_name, INTERNAL
 
 logging.disable(logging.CRITICAL)
 
-LEAN_TARGETS = ["NfcVerif.Props.C03", "NfcVerif.Props.C03Ctl", "NfcVerif.Props.C03Sess", "drv_t12", "drv_c03"]
+LEAN_TARGETS = ["NfcVerif.Props.C03", "NfcVerif.Props.C03Ctl", "NfcVerif.Props.C03Sess", "NfcVerif.Props.C03Sect", "drv_t12", "drv_c03"]
 PARTS = ["t34"] if os.path.exists(os.path.join(os.path.dirname(os.path.abspath(__file__)), "c03_t34.py")) else []
 
 THEOREMS = [
@@ -49,6 +49,16 @@ THEOREMS_SESS = [
     "NfcVerif.C03Sess.format_then_write_confined",
     "NfcVerif.C03Sess.topaz_format_then_write_confined",
     "NfcVerif.C03Sess.format_keep_cache_counterexample",   # what Tag.format's `self._ndef = None` is needed for
+]
+
+THEOREMS_SECT = [
+    "NfcVerif.C03Sect.sector_belief_sound",
+    "NfcVerif.C03Sect.sector_belief_sound_from",
+    "NfcVerif.C03Sect.reader_commands_land",
+    "NfcVerif.C03Sect.reader_selects_sector",
+    "NfcVerif.C03Sect.sector_select_keeps_belief",
+    "NfcVerif.C03Sect.unfaithful_ack_counterexample",   # why the passive ack must be assumed faithful
+    "NfcVerif.C03Sect.reactivation_counterexample",     # open finding t2-sector-stale-after-reactivation
 ]
 
 FIELD_RUNS = []
@@ -250,8 +260,9 @@ def run(ck):
     ck.lean("NfcVerif.Props.C03", THEOREMS)
     ck.lean("NfcVerif.Props.C03Ctl", THEOREMS_CTL)
     ck.lean("NfcVerif.Props.C03Sess", THEOREMS_SESS)
+    ck.lean("NfcVerif.Props.C03Sect", THEOREMS_SECT)
     if ck.thorough:
-        ck.leanchecker(["NfcVerif.Props.C03", "NfcVerif.Props.C03Ctl", "NfcVerif.Props.C03Sess"])
+        ck.leanchecker(["NfcVerif.Props.C03", "NfcVerif.Props.C03Ctl", "NfcVerif.Props.C03Sess", "NfcVerif.Props.C03Sect"])
     lap(ck, "drivers")
     model = Model("drv_t12")
     model3 = Model("drv_c03")
@@ -362,6 +373,10 @@ def run(ck):
     # ------------------------------------------------------------------ sequences of operations on one tag object
     lap(ck, "sequences")
     sequences(ck, model3)
+
+    # ------------------------------------------------------------------ several sectors, a fault on any exchange
+    lap(ck, "sectors")
+    sectors(ck, model3)
     lap(ck, None)
 
 
@@ -1142,3 +1157,270 @@ def sequences(ck, model3):
             replay["request"] = "seq %s %s %s" % (mk, hx(base0), ",".join(req_ops))
             st.add(replay["request"], " ; ".join(steps) + " | " + final, replay)
     st.close()
+
+
+# ====================================================================== Type 2 Tags with several sectors, faults
+SECT_FAULTS = [("drop",), ("corrupt", "transmission"), ("corrupt", "protocol"), ("corrupt", "nak"),
+               ("lost", "timeout"), ("lost", "transmission"), ("lost", "protocol")]
+# packet 2 of SECTOR SELECT: faults under which the passive acknowledgement stays faithful (the tag received a damaged
+# frame, did not switch, and the reader saw something other than silence)
+SECT_FAULTS_P2 = [("corrupt", "transmission"), ("corrupt", "protocol"), ("corrupt", "nak")]
+
+
+def sector_tie(ck, model3):
+    """Model/SectC03 vs Type2Tag.sector_select/read/write and Type2TagMemoryReader on a simulated tag with 1-4
+    sectors: random histories of reader[a], reader[a] = v, synchronize(), sector_select, read, write with a fault
+    script per exchange (any fault kind on any exchange incl. both SECTOR SELECT packets); compared: every call's
+    outcome, the commands the tag executed with (real sector, believed sector), final tag/object state."""
+    from sims.c03_faults import T2SectorSim, activate_sector, air_token
+    import nfc.tag.tt2
+    rng = ck.rng
+    tie = Tie(ck, model3, "sector-model-vs-nfcpy", "SectC03 model vs Type2Tag.sector_select/read/write/transceive + "
+              "Type2TagMemoryReader on multi-sector tags with a fault script per exchange (outcomes, executed commands "
+              "with real and believed sector, final state)")
+
+    def tok(op):
+        return {"g": lambda: "g%d" % op[1], "s": lambda: "s%d:%d" % (op[1], op[2]), "y": lambda: "y",
+                "S": lambda: "S%d" % op[1], "R": lambda: "R%d" % op[1], "W": lambda: "W%d:%s" % (op[1], hx(op[2]))}[op[0]]()
+
+    def run_ops(mem, script, ops):
+        sim = T2SectorSim(mem)
+        tag = activate_sector(sim)
+        sim.arm({i: f for i, f in enumerate(script) if f is not None})
+        mr = nfc.tag.tt2.Type2TagMemoryReader(tag)
+        out = []
+        for op in ops:
+            try:
+                if op[0] == "g":
+                    out.append("ok %d" % mr[op[1]])
+                elif op[0] == "s":
+                    mr[op[1]] = op[2]
+                    out.append("ok")
+                elif op[0] == "y":
+                    mr.synchronize()
+                    out.append("ok")
+                elif op[0] == "S":
+                    out.append("ok %d" % tag.sector_select(op[1]))
+                elif op[0] == "R":
+                    out.append("ok " + hx(tag.read(op[1])))
+                else:
+                    tag.write(op[1], op[2])
+                    out.append("ok")
+            except Exception as e:  # noqa
+                out.append("exc " + exc_name(e))
+        tr = ",".join("%s:%d:%d:%d:%s" % (k[0], real, -1 if bel is None else bel, page, hx(d)) for k, real, bel, page, d in sim.trace) or "-"
+        line = "; ".join(out) + " | " + tr + " | %d %d %d %d %d" % (
+            sim.sector, tag._current_sector, int(sim.pend), int(sim.amb_ack or sim.amb_sense), len(mr))
+        return line, sim
+
+    # does this tree reset _current_sector when read() re-activates the tag (proposed repair of the open finding
+    # t2-sector-stale-after-reactivation)?  The model is the code AS FOUND; on a repaired tree the histories in which
+    # a re-activation happened in an upper sector are not compared.
+    try:
+        _, psim = run_ops(bytes(1040), [None, None, ("corrupt", "nak")], [("S", 1), ("R", 256)])
+        repaired = psim.obj._current_sector == 0
+    except Exception as e:  # noqa
+        repaired = False
+        ck.fail("t2-sector-unexpected-exception", "probe sector_select(1); read(256) with NAK raised %s: %s" % (exc_name(e), e),
+                {"op": "sector-history", "ops": ["S1", "R256"], "script": ["o", "o", "cn"]})
+    if repaired:
+        ck.notes.append("this tree resets _current_sector on re-activation (repair of t2-sector-stale-after-reactivation): "
+                        "histories with a re-activation in an upper sector are left out of the SectC03 comparison")
+    n = 2500 if ck.thorough else 260
+    for i in range(n):
+        size = rng.choice([1024 + 64, 1024 + 256, 2048, 2048 + 48, 3072, 4096, 1024, 512, 1024 + 20])
+        mem = bytes(rng.randrange(256) for _ in range(size))
+        ops = []
+        for _ in range(rng.randrange(2, 9)):
+            r = rng.random()
+            if r < 0.35:
+                ops.append(("g", rng.choice([rng.randrange(0, size), 1008 + rng.randrange(0, 40), min(size - 1, 2040 + rng.randrange(0, 20)),
+                                             size - 1, size, size + 20])))
+            elif r < 0.6:
+                ops.append(("s", rng.choice([rng.randrange(0, size), 1020 + rng.randrange(0, 10), rng.randrange(0, 64)]), rng.randrange(256)))
+            elif r < 0.8:
+                ops.append(("y",))
+            elif r < 0.88:
+                ops.append(("S", rng.randrange(0, 5)))
+            elif r < 0.94:
+                ops.append(("R", rng.choice([rng.randrange(0, 1100), 255, 256, 0, size // 4 - 1, size // 4 - 2])))
+            else:
+                ops.append(("W", rng.choice([rng.randrange(0, 1100), 255, 256, 300]),
+                            bytes(rng.randrange(256) for _ in range(rng.choice([4, 4, 4, 3])))))
+        replay = {"op": "sector-history", "memory": mem.hex(), "ops": [tok(o) for o in ops]}
+        try:
+            _, sim0 = run_ops(mem, [], ops)
+            script = [None] * (sim0.n + 6)
+            for _ in range(rng.choice([0, 1, 1, 2, 3, 6])):
+                script[rng.randrange(0, len(script))] = rng.choice(SECT_FAULTS + [("corrupt", "timeout"), ("lost", "nak")])
+            idx = [j for j, k in enumerate(sim0.kinds) if k in ("ss1", "ss2")]
+            if idx and rng.random() < 0.6:
+                j = rng.choice(idx)
+                for jj in range(j, min(len(script), j + rng.choice([1, 1, 2, 3]))):
+                    script[jj] = rng.choice(SECT_FAULTS)
+            line, sim = run_ops(mem, script, ops)
+        except Exception as e:  # noqa
+            ck.fail("t2-sector-unexpected-exception", "history of reader / tag calls raised %s: %s" % (exc_name(e), e), replay)
+            continue
+        while script and script[-1] is None:
+            script.pop()
+        replay["script"] = [air_token(f) for f in script]
+        req = "sect %s %s %s" % (hx(mem), ",".join(replay["script"]) or "-", ",".join(replay["ops"]))
+        nsel = sum(1 for t in sim.trace if t[0] == "select")
+        ck.case(("sector-history", mem, tuple(replay["ops"]), tuple(replay["script"])), len(sim.trace) > 0,
+                "sector-history:%d sectors:%s" % ((size + 1023) // 1024, "faults" if script else "clean"),
+                sample={"op": "sector-history", "ops": replay["ops"], "script": replay["script"]} if i < 2 else None)
+        ck.count("sector-history: SECTOR SELECTs executed by the tag: %s" % ("0" if nsel == 0 else "1-2" if nsel < 3 else "3+"))
+        if repaired and sim.amb_sense:
+            ck.count("sector-history not compared (repaired tree, re-activation in an upper sector)")
+            continue
+        tie.add(req, line, replay)
+    tie.close()
+
+
+def sectors(ck, model3):
+    """NDEF writes on Type 2 Tags with 2-4 sectors, a fault on ANY exchange of an assignment (READ, WRITE, SECTOR
+    SELECT packet 1 and 2; lost frame, damaged frame, lost / damaged answer), the TagCommandError reaches the
+    application, which assigns again through the SAME tag / ndef object.  After every assignment: every WRITE the
+    tag executed must cover a byte of the NDEF area (absolute address: sector the tag really was in), no byte outside
+    the area may have changed, and no WRITE may have been executed while the object believed another sector than the
+    tag was in.  Histories in which the passive acknowledgement of packet 2 was not faithful (no reader can handle
+    that) are counted and not judged."""
+    from sims.c03_faults import T2SectorSim, activate_sector, sector_layout, KindFaults
+    import nfc.tag
+    rng = ck.rng
+    ck.rule += ("; sector part: case = (memory of 1-4 sectors, history of reader / tag calls or of 2-4 NDEF assignments through one "
+                "object, fault script: any of frame dropped / frame damaged / answer lost or damaged / clean NAK on any exchange "
+                "incl. SECTOR SELECT packet 1 and 2); non-trivial = the tag executed a command resp. an assignment failed or was "
+                "repeated")
+    ck.assumptions += [
+        "several sectors: the passive acknowledgement of SECTOR SELECT packet 2 is faithful (silence within 1 ms <=> the tag "
+        "switched); histories in which it is not are counted, not judged (no reader can tell them from the normal cases)",
+        "a re-activated Type 2 Tag has sector 0 selected; clf.sense() finds the tag again",
+    ]
+    ck.trusted += ["hand-written Lean model NfcVerif.Model.SectC03 tied to Type2Tag.sector_select/read/write/transceive and "
+                   "Type2TagMemoryReader by differential runs with fault scripts", "harness/sims/c03_faults.py"]
+    sector_tie(ck, model3)
+
+    def history(lay, old, steps, what, session2=False):
+        """steps: [(data, plan)] - plan = [(kind, ordinal, fault)] for KindFaults, [] for a clean assignment"""
+        mem = bytearray(lay["mem"])
+        if not lay["put"](mem, old):
+            return
+        base = bytes(mem)
+        replay = {"op": "sector-ndef-history", "memory": base.hex(), "ndef_tlv": lay["off"], "area_end": lay["end"],
+                  "reserved": sorted(lay["skip"]), "steps": []}
+        try:
+            sim = T2SectorSim(base)
+            tag = activate_sector(sim)
+            nd = tag.ndef
+        except Exception as e:  # noqa
+            ck.fail("t2-sector-unexpected-exception", "%s: activation / first read raised %s: %s" % (what, exc_name(e), e), replay)
+            return
+        if nd is None or nd.capacity != lay["cap"]:
+            ck.fail("t12-wellformed-layout-not-read", "%s: %d-sector tag read as %s (layout capacity %d)" % (
+                what, lay["sectors"], None if nd is None else nd.capacity, lay["cap"]), replay)
+            return
+        amb_ack = amb_sense = False
+        outs = []
+        for data, plan in steps:
+            replay["steps"].append({"data": data.hex(), "faults": [[k, o, list(f)] for k, o, f in plan]})
+            try:
+                sim.arm({})
+                kf = KindFaults(sim, plan)
+                sim.script = kf
+                try:
+                    nd = tag.ndef
+                    if nd is None:
+                        out = "no-ndef"
+                    else:
+                        nd.octets = data
+                        out = "ok"
+                except nfc.tag.TagCommandError as e:
+                    out = "exc " + exc_name(e)
+                writes, trace, final = list(sim.writes), list(sim.trace), bytes(sim.mem)
+            except Exception as e:  # noqa
+                ck.fail("t2-sector-unexpected-exception", "%s, assignment %d raised %s: %s" % (what, len(outs) + 1, exc_name(e), e), replay)
+                return
+            outs.append(out)
+            replay["steps"][-1]["fired"] = [[k, n_, list(f)] for k, n_, f in kf.fired]
+            replay["steps"][-1]["outcome"] = out
+            amb_ack = amb_ack or sim.amb_ack
+            amb_sense = amb_sense or sim.amb_sense
+            if amb_ack:
+                ck.count("sector histories not judged further: passive acknowledgement of packet 2 not faithful")
+                break
+            where = "%s, assignment %d of %d (%d bytes, outcomes so far %s)" % (what, len(outs), len(steps), len(data), outs)
+            key_sfx = None
+            bad_w = [(a, d) for a, d in writes if not any(in_area(lay, x) and x != lay["off"] for x in range(a, a + 4))]
+            bad_b = [a for a in range(len(base)) if base[a] != final[a] and not (in_area(lay, a) and a != lay["off"])]
+            stale = [t for t in trace if t[0] == "write" and t[2] is not None and t[1] != t[2]]
+            if bad_w:
+                a, d = bad_w[0]
+                key_sfx, msg = "write-outside-area", "WRITE of %s executed at byte %d (sector %d page %d), wholly outside the NDEF area %d..%d" % (
+                    d.hex(), a, a >> 10, (a >> 2) & 255, lay["off"] + 1, lay["end"] - 1)
+            elif bad_b:
+                a = bad_b[0]
+                key_sfx, msg = "byte-outside-area", "byte %d (%s) changed %02x -> %02x" % (a, where_of(lay, a), base[a], final[a])
+            elif stale:
+                t = stale[0]
+                key_sfx, msg = "write-in-wrong-sector", "WRITE page %d executed in sector %d while the tag object believed sector %d" % (t[3], t[1], t[2])
+            if key_sfx:
+                key = "t2-sector-stale-after-reactivation" if amb_sense else "t2-sector-" + key_sfx
+                ck.fail(key, "%s: %s%s" % (where, msg, "; the tag had been re-activated (READ answered with NAK) while the object "
+                                            "believed a sector other than 0" if amb_sense else ""), replay)
+                break
+            if out not in ("ok",) and not out.startswith("exc TagCommandError"):
+                ck.fail("t2-sector-unexpected-exception", "%s ended with %s" % (where, out), replay)
+                break
+            if out == "ok" and not plan and not kf.fired and len(outs) == len(steps) and not amb_sense:
+                # last, clean assignment succeeded: what a fresh reader finds (not a confinement claim; recorded)
+                ck.count("sector histories: final clean assignment succeeded")
+        ck.case(("sector-ndef", base, tuple((d, tuple(map(tuple, p))) for d, p in steps)), any(o != "ok" for o in outs) or len(outs) > 1,
+                "sector-ndef:%d sectors:%s" % (lay["sectors"], what.split(":")[0]),
+                sample={"op": "sector-ndef-history", "what": what, "outcomes": outs} if rng.random() < 0.004 else None)
+
+    def msg(n):
+        return bytes(rng.randrange(256) for _ in range(max(1, n)))
+
+    # (a) the shape of seeded change C03-r5m1 and its neighbourhood: every SECTOR SELECT of the assignment (ordinal 0..5),
+    #     packet 1 and packet 2, every fault under which the acknowledgement stays faithful; then the SAME data again
+    for sectors_ in ((2, 3) if not ck.thorough else (2, 3, 4)):
+        for rep in range(2 if ck.thorough else 1):
+            lay = sector_layout(rng, sectors_)
+            for pkt, faults in (("ss2", SECT_FAULTS_P2), ("ss1", [("lost", "transmission"), ("corrupt", "nak"), ("lost", "timeout")])):
+                for ordinal in range(6):
+                    for f in faults:
+                        data = msg(rng.choice([lay["cap"], lay["cap"] - 1, 1100, 1500]) if lay["cap"] > 1500 else lay["cap"])
+                        plan = [(pkt, ordinal, f)] * (3 if pkt == "ss1" else 1)
+                        if pkt == "ss1":
+                            plan = [(pkt, ordinal + j, f) for j in range(3)]      # all three attempts of transceive
+                        history(lay, msg(rng.choice([0, 5, 300])), [(data, plan), (data, [])], "select-fault-then-retry:%s" % pkt)
+    # (b) random histories: 2-4 assignments, same or new data, faults on any exchange kind
+    for i in range(1500 if ck.thorough else 150):
+        lay = sector_layout(rng, rng.choice([2, 2, 3, 4]))
+        cap = lay["cap"]
+        steps, data = [], None
+        nst = rng.choice([2, 3, 4])
+        for s_ in range(nst):
+            if data is None or rng.random() < 0.4:
+                data = msg(rng.choice([cap, cap - 1, 1100, 1010, 1020, 1030, 300, rng.randrange(900, cap)]))
+            plan = []
+            if s_ < nst - 1:
+                for _ in range(rng.choice([1, 1, 2])):
+                    kind = rng.choice(["ss2", "ss2", "ss1", "read", "write", "any"])
+                    f = rng.choice(SECT_FAULTS_P2 if kind in ("ss2", "any") and rng.random() < 0.93 else SECT_FAULTS)
+                    plan.append((kind, rng.randrange(0, 5) if kind != "any" else rng.randrange(0, 400), f))
+            steps.append((data, plan))
+        history(lay, msg(rng.choice([0, 5, 300, 1000, cap])), steps, "random")
+    # (c) a NAK answer to a READ in an upper sector (the tag got a damaged frame): the code re-activates the tag.  Shape:
+    #     a message that ends near the sector boundary is extended (new session), the first READ behind the boundary is
+    #     answered with NAK, the application assigns again
+    for i in range(60 if ck.thorough else 10):
+        lay = sector_layout(rng, rng.choice([2, 2, 3]), ctl_in_upper=False)
+        first = lay["off"] + 4
+        skip_lo = len([a for a in lay["skip"] if first <= a < 1024])
+        n_old = 1024 - first - skip_lo - rng.choice([0, 1, 2, 3, 8, 17])
+        old = msg(n_old)
+        data = old + msg(rng.choice([40, 200, lay["cap"] - n_old]))
+        history(lay, old, [(data, [("read", rng.choice([0, 0, 0, 1, 2]), ("corrupt", "nak"))]), (data, []), (data, [])], "nak-on-read-then-retry")
